@@ -117,6 +117,19 @@ func (in *Interp) newDocBytes(payload Value) SliceV {
 	return SliceV{arr: arr, n: 1, cp: 1, symLen: ln}
 }
 
+func (in *Interp) isBytesReader(r Value) bool {
+	iv, ok := r.(IfaceV)
+	if !ok || iv.t == nil {
+		return false
+	}
+	pt, ok := iv.t.(*types.Pointer)
+	if !ok {
+		return false
+	}
+	n, ok := pt.Elem().(*types.Named)
+	return ok && n.Obj().Pkg() != nil && n.Obj().Pkg().Path() == "bytes" && n.Obj().Name() == "Reader"
+}
+
 func (in *Interp) readerBytes(r Value) SliceV {
 	iv, ok := r.(IfaceV)
 	if !ok || iv.t == nil {
@@ -232,6 +245,53 @@ func (in *Interp) setInter(sets []*SetObj) []*Term {
 	return out
 }
 
+// untrustedDecode models a decoder reading bytes the harness does not control as abstract
+// documents (a request body): it fails with some error, or succeeds and leaves arbitrary
+// values in the scalar fields of the target (strings up to 2 bytes; pointers, slices, maps
+// and interfaces stay zero: bound of the model).
+func (in *Interp) untrustedDecode(target Value, what string) Value {
+	tv, ok := target.(IfaceV)
+	if !ok || tv.t == nil {
+		in.abort("unsupported", what+": decode into nil")
+	}
+	pt, ok := tv.t.Underlying().(*types.Pointer)
+	if !ok {
+		in.abort("unsupported", what+": decode into non-pointer "+tv.t.String())
+	}
+	if in.choose(func() []int { return []int{0, 1} }) == 0 {
+		return in.newErrorString(what + ": malformed input")
+	}
+	in.havoc(tv.v.(PtrV).loc, pt.Elem())
+	return IfaceV{}
+}
+
+func (in *Interp) havoc(l *Loc, t types.Type) {
+	switch u := t.Underlying().(type) {
+	case *types.Basic:
+		switch {
+		case u.Kind() == types.String:
+			n := in.choose(func() []int { return []int{0, 1, 2} })
+			b := make([]*Term, n)
+			for i := range b {
+				b[i] = in.fresh(8, "dec")
+			}
+			l.set(StrV{b: b})
+		case u.Kind() == types.Bool:
+			l.set(in.fresh(1, "dec"))
+		case u.Info()&(types.IsInteger|types.IsFloat) != 0:
+			l.set(in.fresh(widthOf(t), "dec"))
+		}
+	case *types.Struct:
+		for i := 0; i < u.NumFields(); i++ {
+			in.havoc(l.sub[i], u.Field(i).Type())
+		}
+	case *types.Array:
+		for i := range l.sub {
+			in.havoc(l.sub[i], u.Elem())
+		}
+	}
+}
+
 type setIter struct {
 	elems []*Term
 	pos   int
@@ -274,6 +334,9 @@ func (in *Interp) installLibStubs() {
 		if !ok {
 			in.abort("unsupported", "Decode without reader")
 		}
+		if !in.isBytesReader(rd) {
+			return in.untrustedDecode(a[1], "msgpack")
+		}
 		data := in.readerBytes(rd)
 		if data.symLen == nil && data.n == 0 {
 			return in.eofErr()
@@ -284,6 +347,13 @@ func (in *Interp) installLibStubs() {
 		}
 		in.storeDecoded(a[1], payload)
 		return nilErr
+	}
+	S["(*"+mp+".Decoder).SetCustomStructTag"] = func(in *Interp, fn *ssa.Function, a []Value) Value { return nil }
+	S["encoding/json.NewDecoder"] = func(in *Interp, fn *ssa.Function, a []Value) Value {
+		return PtrV{loc: &Loc{v: BVu(8, 0)}}
+	}
+	S["(*encoding/json.Decoder).Decode"] = func(in *Interp, fn *ssa.Function, a []Value) Value {
+		return in.untrustedDecode(a[1], "json")
 	}
 	S["(*"+mp+".Decoder).Query"] = func(in *Interp, fn *ssa.Function, a []Value) Value {
 		rd, ok := in.decs[a[0].(PtrV).loc]
